@@ -90,6 +90,9 @@ func runC16(ctx *Ctx) {
 	if ctx.Replay != "" {
 		var c pagerCase
 		readReplay(ctx.Replay, &c)
+		for _, b := range c.Before {
+			run(b)
+		}
 		run(c)
 		pn.run(ctx)
 		pv.run(ctx)
@@ -107,6 +110,37 @@ func runC16(ctx *Ctx) {
 		}
 		run(genPager(r, newPageGen(r)))
 	}
+	// ---- several articles of ONE directory in a row, their pagers written with query-only hrefs
+	// (resolved against the full path of the page they are on): each answer must come from the
+	// page at hand, not from an earlier call
+	for i := 0; i < ctx.pick(30, 600); i++ {
+		r := newRng(ctx.Seed, fmt.Sprintf("C16/series/%d", i))
+		g := newPageGen(r)
+		dir := r.Pick("http://example.com/news/", "https://www.example.org/a/b/", "http://example.com/")
+		k, n := r.Range(2, 4), r.Range(5, 7)
+		var before []pagerCase
+		for a := 0; a < 3; a++ {
+			slug := fmt.Sprintf("article-%d-%d", i, a)
+			var sb strings.Builder
+			sb.WriteString("<html><head><title>t</title></head><body><p>" + g.words(60) + "</p><div class=\"pager\">")
+			fmt.Fprintf(&sb, `<a href="?page=%d">%s</a> `, k-1, r.Pick("Prev", "Previous", "‹ Prev"))
+			for p := 1; p <= n; p++ {
+				if p == k {
+					fmt.Fprintf(&sb, "<strong>%d</strong> ", p)
+				} else {
+					fmt.Fprintf(&sb, `<a href="?page=%d">%d</a> `, p, p)
+				}
+			}
+			fmt.Fprintf(&sb, `<a href="?page=%d">%s</a>`, k+1, r.Pick("Next", "Next ›", "next page"))
+			sb.WriteString("</div></body></html>")
+			pc := pagerCase{HTML: sb.String(), PageURL: fmt.Sprintf("%s%s?page=%d", dir, slug, k), Desc: map[string]string{"family": "series-query-only", "n": fmt.Sprint(n), "k": fmt.Sprint(k)}}
+			pc.Before = append([]pagerCase{}, before...)
+			run(pc)
+			pc.Before = nil
+			before = append(before, pc)
+		}
+	}
+	createAbsCorr(ctx, ctx.pick(6000, 300000)).run(ctx)
 	// ---- the groups of adjacent numbers as a state machine: random call sequences on the real
 	// MonotonicPageInfoGroups against the model
 	pg := newCorr("pagegroups")
